@@ -115,6 +115,10 @@ func init() {
 		src := in.sliceBytes(a[0].(SliceV), 1)
 		dst := a[1].(SliceV)
 		orig, ok := in.codecLookup("lz4", src)
+		if ok && overlaps(a[0].(SliceV), dst, dst.Len) {
+			// decoding over one's own input: the decoder reads what it has just overwritten
+			ok = false
+		}
 		if ok {
 			if len(orig) > dst.Len {
 				return TupleV{in.st.Const(0, 64), in.newErrorString("errors", in.strConst("lz4: invalid source or destination buffer too short"))}
@@ -145,6 +149,9 @@ func init() {
 		dst := a[2].(SliceV)
 		bt := types.NewSlice(types.Typ[types.Byte])
 		orig, ok := in.codecLookup("zstd", src)
+		if ok && overlaps(a[1].(SliceV), dst, dst.Cap) {
+			ok = false // the output would be written over the input still being read
+		}
 		if ok {
 			return TupleV{in.appendOp(dst, in.bytesToSlice(orig), bt, bt), IfaceV{}}
 		}
@@ -165,4 +172,12 @@ func init() {
 	n["github.com/klauspost/compress/zstd.NewReader"] = func(in *Interp, fr *frame, a []Value) Value {
 		return TupleV{PtrV{C: in.newFlatCell(types.Typ[types.Uint8], 1)}, IfaceV{}}
 	}
+}
+
+// overlaps reports whether the first n bytes of dst's backing share memory with src.
+func overlaps(src, dst SliceV, n int) bool {
+	if src.C == nil || src.C != dst.C || src.Len == 0 || n == 0 {
+		return false
+	}
+	return src.Off < dst.Off+n && dst.Off < src.Off+src.Len
 }
